@@ -124,6 +124,33 @@ def run(ctx):
     r1.expect_min(5)
 
     r2 = rep.rule('C15.2-back-off-shape', 'R-CONST', 'nextretry: n = 0 if birth > recent else squareroot(recent - birth); n += chanskip[c]; return birth + n*n; chanskip = {10, 20}, all >= 1')
+    # the square root itself: result^2 <= x < (result+1)^2 for ages from 0 to 2^31-1 (squareroot() run concretely)
+    import math
+    sq = prog.fn('squareroot', 'qmail-send.c')
+    badsq = None
+    xs = [0, 1, 2, 3, 4, 8, 9, 15, 16, 24, 25, 99, 100, 3599, 3600, 604800, 2 ** 20 - 1, 2 ** 20, 2 ** 24, 2 ** 28 - 1, 2 ** 28, 2 ** 30 - 1, 2 ** 30, 2 ** 30 + 1, 1075000000, 2 ** 31 - 1]
+    for x_ in xs:
+        class SQ(QHooks):
+            def __init__(self):
+                self.rets = []
+
+            def tracked_global(self, path):
+                return True
+
+            def precise_arith(self, path):
+                return True
+
+            def on_return(self, E, fn, val):
+                if fn.name == 'squareroot':
+                    self.rets.append(val)
+        hq = SQ()
+        eq = Engine(db, prog, hq, max_states=20000)
+        eq.run(sq, {'%s::%s' % (eq.frame_id(sq), sq.params[0]): fs(x_)})
+        rep.count_states(eq.states, eq.transitions)
+        got = next(iter(hq.rets[0])) if len(hq.rets) == 1 and hq.rets[0] is not TOP and len(hq.rets[0]) == 1 else None
+        if got != math.isqrt(x_) and badsq is None:
+            badsq = 'squareroot(%d) is %s; documented %d: for a message this old the retry time lies too early (beyond 2^30 seconds in the past, so it is retried without pause)' % (x_, got, math.isqrt(x_))
+    r2.check(badsq is None, 'squareroot=floor-of-the-square-root(0..2^31-1)', 'qmail-send.c:squareroot', badsq or '%d ages' % len(xs))
     nr = prog.fn('nextretry', 'qmail-send.c')
     cs0 = db.unit('qmail-send.c').globals.get('chanskip')
     skips = [e.get('v') for e in cs0['init']['v']] if cs0 and cs0.get('init', {}).get('k') == 'list' else None
